@@ -252,3 +252,23 @@ def run(prog, chk):
     n2 = [n for (n, c) in lfu.fl.nodes_with_call(name="self._send_message")]
     ok = len(snd) == 1 and fl.dominated(snd, guard_edge=g) and bool(n2) and lfu.holds(n2[0], "self.clear_to_send_lock")
     chk.ob("R4.gated-sender-tests-gate-under-lock", "_send_user_message", ok, su.loc, "sends only with the gate open, holding clear_to_send_lock")
+
+    # R6 packet expectations are a kex-phase constraint set by the transport thread -----------------------------------
+    # `_expect_packet` narrows what the run loop accepts next.  Set from a user-thread function it (a) races with the
+    # run loop's test-and-clear and (b) outlaws connection traffic the peer sent before it saw our KEXINIT - exactly
+    # the traffic in flight a re-exchange must tolerate.  Every caller must be transport-thread-only.
+    nexp = 0
+    per = {}
+    for f in prog.all_functions():
+        for c in walk_no_defs(f.node):
+            if isinstance(c, ast.Call) and isinstance(c.func, ast.Attribute) and c.func.attr == "_expect_packet":
+                nexp += 1
+                i = per.get(f.qual, 0)
+                per[f.qual] = i + 1
+                inT, inU = f.qual in T, f.qual in U
+                okx = inT and not inU
+                # the engines' start_kex is called by _negotiate_keys on the transport thread only
+                chk.ob("R6.expectation-set-on-transport-thread-only", "%s#%d" % (f.qual, i), okx, "%s:%d" % (f.module.path, c.lineno),
+                       "%s in %s (%s)" % (unparse(c)[:60], f.qual, "transport thread only" if okx else
+                                          "reachable from the public API: %s" % " > ".join((cg.path(roots, f.qual) or [f.qual])[-3:]) if inU else "not reachable from Transport.run"))
+    chk.floor("R6", "_expect_packet call sites", nexp, 20)
